@@ -972,6 +972,30 @@ def drop_name(model: dict, mod: str, name: str) -> None:
             drop_name(model, mod2, name)  # no wildcard (or other) import brings the name in any more
 
 
+def keep_bound_names_exported(old: dict, new: dict) -> int:
+    """Un-exporting a name that still exists is no edit of the catalogue (the statement speaks of removed objects): when an
+    edit shrank a module's effective ``__all__`` (a dropped composition term, a dropped wildcard ...) while another statement
+    of the module still binds the name, the name is listed literally instead. Returns the number of names re-listed."""
+    fixed = 0
+    for _ in range(4):
+        changed = False
+        for mod, nm in new["mods"].items():
+            om = old["mods"].get(mod)
+            if om is None or nm["all"] is None:
+                continue
+            old_def, new_def = {o["name"] for o in om["objs"]}, {o["name"] for o in nm["objs"]}
+            bound_old = old_def | {i[2] or i[1] for i in imports_of(old, mod)}
+            bound_new = new_def | {i[2] or i[1] for i in imports_of(new, mod)}
+            for n in sorted(bound_old & bound_new):
+                if name_public(old, mod, n, imported=n not in old_def) and not name_public(new, mod, n, imported=n not in new_def):
+                    nm["all"].append(n)
+                    fixed += 1
+                    changed = True
+        if not changed:
+            break
+    return fixed
+
+
 def canon(mod: str, cls: dict | None, o: dict) -> str:
     return f"{mod}.{cls['name']}.{o['name']}" if cls else f"{mod}.{o['name']}"
 
@@ -1081,12 +1105,44 @@ def expected_differences(old_surface: dict, new_surface: dict) -> list[dict]:
     return diffs
 
 
+def module_bindings(files: dict[str, str]) -> dict[str, set[str]]:
+    """module path -> names its source binds at module level by a statement that names them (def, class, assignment,
+    import; CPython's own parser reads the source). Names only a wildcard import brings in are not listed."""
+    import ast
+
+    out: dict[str, set[str]] = {}
+    for rel, src in files.items():
+        mod = rel[:-3].replace("/", ".")
+        mod = mod[: -len(".__init__")] if mod.endswith(".__init__") else mod
+        names = out.setdefault(mod, set())
+        for node in ast.parse(src).body:
+            if isinstance(node, (ast.FunctionDef, ast.AsyncFunctionDef, ast.ClassDef)):
+                names.add(node.name)
+            elif isinstance(node, (ast.Import, ast.ImportFrom)):
+                names |= {(a.asname or a.name).split(".")[0] for a in node.names if a.name != "*"}
+            elif isinstance(node, (ast.Assign, ast.AnnAssign, ast.AugAssign)):
+                targets = node.targets if isinstance(node, ast.Assign) else [node.target]
+                names |= {t.id for t in targets if isinstance(t, ast.Name)}
+    return out
+
+
 def reference_diffs(case: dict) -> tuple[list[dict], list[dict]]:
     """(demanded, allowed). Demanded: differences between the public surfaces as far as the loaded packages show them.
     Allowed: those plus the differences Python itself sees with every sibling package present (a report about an object
-    that lives in a package the session did not load is neither demanded nor forbidden)."""
+    that lives in a package the session did not load is neither demanded nor forbidden). A module-level name that left
+    the public surface but is still bound in the new module was un-exported, not removed: the statement does not speak
+    about that, so it is allowed but not demanded either."""
     demanded = expected_differences(case["old_surface"], case["new_surface"])
     allowed = list(demanded)
+    if any(d["kind"] == "Public object was removed" for d in demanded):
+        bound = module_bindings(case["new"])
+        for mod, names in (case.get("bound_new") or {}).items():
+            bound.setdefault(mod, set()).update(names)
+
+        def unexported(path: str) -> bool:
+            mod, _, name = path.rpartition(".")
+            return mod in bound and name in bound[mod]
+        demanded = [d for d in demanded if not (d["kind"] == "Public object was removed" and unexported(d["path"]))]
     if case.get("old_full") is not None:
         allowed += expected_differences(case["old_full"], case["new_full"])
     return demanded, allowed
@@ -1233,6 +1289,9 @@ def run_case(rec, old_model: dict, script: list[str], rng: random.Random, with_c
         e = apply_edit(rng, old_model, new_model, kind, paths_old, focus=focus)
         if e:
             expectations.append(e)
+    relisted = keep_bound_names_exported(old_model, new_model)
+    if relisted:
+        rec.count("still_bound_names_kept_exported_after_edit", relisted)
     fix_class_order(new_model)
     fix_class_order(old_model)
     if any(m.get("wild") and not eff_all(mdl, mod) for mdl in (old_model, new_model) for mod, m in mdl["mods"].items()):
@@ -1249,7 +1308,9 @@ def run_case(rec, old_model: dict, script: list[str], rng: random.Random, with_c
     case = {"old": old_files, "new": new_files, "expectations": expectations, "session": session, "loaded": loaded,
             "old_surface": surface(old_model, loaded), "new_surface": surface(new_model, loaded),
             "old_full": surface(old_model), "new_full": surface(new_model), "wild_paths": wildcard_only_paths(old_model, set(loaded)),
-            "composed_paths": composed, "boundary": boundary_shapes(old_model, set(loaded))}
+            "composed_paths": composed, "boundary": boundary_shapes(old_model, set(loaded)),
+            "bound_new": {mod: sorted({o["name"] for o in m["objs"]} | {i[2] or i[1] for i in imports_of(new_model, mod)})
+                          for mod, m in new_model["mods"].items()}}
     judge_case(rec, case, with_cli)
 
 
